@@ -61,8 +61,6 @@ TABLE = {
     'Story::perform_logic_and_flow_control|Divert::get_target_path_string':
         'reached only when has_variable_target() is false: the decoders build a divert with exactly one of target path / '
         'variable name',
-    'Divert::get_target_pointer|field:Divert::target_path':
-        'the function returned the null pointer above when the target path is absent or empty',
 }
 
 
